@@ -17,8 +17,8 @@ RULE = (
     "fault enumeration over every fixture under tests/files plus generated files with nested loads (MetaModule in MetaModule in a project, "
     "Sampler with an embedded effect, MetaModule holding a Sampler with effect): (a) clean load, (b) an OSError at read call k for every k "
     "(K counted on a clean run), (c) an exception at every chunk boundary j counted across nested loads, (d) truncation at every chunk "
-    "boundary and at byte offsets inside headers/payloads, (e) semantic failures (unknown STYP, invalid enum CVAL); each for the strictness "
-    "flag initially True and False and through a stream and through a path. quick: (b),(c) complete for stream + flag True, every 7th point "
+    "boundary and at byte offsets inside headers/payloads, (e) semantic failures (unknown STYP, invalid enum CVAL), (f) path loads of files that are empty, shorter than a chunk header, not SunVox files at all, or cut short; each for the strictness "
+    "flag initially True and False and through a stream and through a path. quick: (b),(c) complete for stream + flag True, every 7th point (plus the first four and the last) "
     "for the other three combinations, truncation at every chunk boundary; thorough: everything complete. distinct = (file, fault kind, "
     "position, flag, access); non-trivial = the injected fault fired and the load raised, or fired inside a nested load"
 )
@@ -27,7 +27,7 @@ ASSUMPTIONS = [
     "nested loads are counted by wrapping the read_sunvox_file names imported into rv.modules.metamodule / rv.modules.sampler (the wrapper calls the original)",
 ]
 REQUIRED_LABELS = {
-    "quick": ["read_fault_raised", "chunk_fault_raised", "fault_in_nested_load", "truncated", "semantic_failure", "path_access", "flag_initially_false"],
+    "quick": ["read_fault_raised", "chunk_fault_raised", "fault_in_nested_load", "truncated", "semantic_failure", "path_access", "flag_initially_false", "path_bad_file"],
     "thorough": ["read_fault_raised", "chunk_fault_raised", "fault_in_nested_load", "truncated", "semantic_failure", "path_access", "flag_initially_false"],
 }
 
@@ -112,6 +112,16 @@ class Env:
         if not os.path.exists(p):
             with open(p, "wb") as f:
                 f.write(data)
+        return p
+
+    def variant_path(self, item, name, data):
+        if self.workdir is None:
+            os.makedirs(os.path.join(VERIF, ".work"), exist_ok=True)
+            self.workdir = tempfile.mkdtemp(prefix="c18_", dir=os.path.join(VERIF, ".work"))
+        base = os.path.basename(item.get("path") or item.get("name"))
+        p = os.path.join(self.workdir, "%s.%s.bin" % (base, name.replace("@", "_")))
+        with open(p, "wb") as f:
+            f.write(data)
         return p
 
     def cleanup(self):
@@ -249,16 +259,21 @@ def run_item(ctx, env, item):
         if not flag0:
             ctx.label("flag_initially_false")
         kk = K if access == "stream" else Kp
-        for k in range(0, kk, stride):
-            r, inf = one_load(ctx, ident, data, path, access, flag0, ("read", k + (ci % stride if not full and k + ci % stride < kk else 0)))
+        ks = list(range(kk)) if full else sorted({0, 1, 2, 3, kk - 1} | {k + ci % stride for k in range(0, kk, stride)})
+        for k in ks:
+            if not (0 <= k < kk):
+                continue
+            r, inf = one_load(ctx, ident, data, path, access, flag0, ("read", k))
             ctx.case()
             if inf["read_fired"] and r is not None:
                 ctx.label("read_fault_raised")
                 n_nt += 1
             elif inf["read_fired"]:
                 ctx.label("read_fault_swallowed")
-        for j in range(0, J, stride):
-            jj = j + (ci % stride if not full and j + ci % stride < J else 0)
+        js = list(range(J)) if full else sorted({0, 1, 2, J - 1} | {j + ci % stride for j in range(0, J, stride)})
+        for jj in js:
+            if not (0 <= jj < J):
+                continue
             r, inf = one_load(ctx, ident, data, path, access, flag0, ("chunk", jj))
             ctx.case()
             if inf["chunk_fired"] and r is not None:
@@ -286,6 +301,17 @@ def run_item(ctx, env, item):
             ctx.label("truncated")
             if r is not None:
                 ctx.label("truncated_raised")
+                n_nt += 1
+    # files on disk that are empty, shorter than a chunk header, not SunVox at all, or cut short
+    cuts = sorted({0, 1, 3, 4, 7, 8, 11, len(data) // 2, max(0, len(data) - 1)})
+    bad_files = [("cut@%d" % c, data[:c]) for c in cuts if c <= len(data)] + [("riff", b"RIFF\x24\0\0\0WAVEfmt "), ("text", b"not a sunvox file\n")]
+    for name, vb in bad_files:
+        vpath = env.variant_path(item, name, vb)
+        for flag0 in (True, False):
+            r, inf = one_load(ctx, ident + "#" + name, vb, vpath, "path", flag0, ("bad_file", None))
+            ctx.case()
+            ctx.label("path_bad_file")
+            if r is not None:
                 n_nt += 1
     for name, vb in semantic_variants(data):
         for flag0 in (True, False):
@@ -322,7 +348,12 @@ def replay(ctx, doc):
     try:
         path = env.path_for(item, data)
         c2 = Ctx(ctx.prop, ctx.tier, ctx.seed, 0, 1, [])
-        if r.get("fault") == "semantic":
+        if r.get("fault") == "bad_file":
+            name = r["file"].split("#", 1)[1]
+            cuts = sorted({0, 1, 3, 4, 7, 8, 11, len(data) // 2, max(0, len(data) - 1)})
+            bad = dict([("cut@%d" % c, data[:c]) for c in cuts if c <= len(data)] + [("riff", b"RIFF\x24\0\0\0WAVEfmt "), ("text", b"not a sunvox file\n")])
+            one_load(c2, r["file"], bad[name], env.variant_path(item, name, bad[name]), "path", r["flag_initially"], ("bad_file", None))
+        elif r.get("fault") == "semantic":
             for name, vb in semantic_variants(data):
                 one_load(c2, r["file"], vb, path, "stream", r["flag_initially"], ("semantic", None))
         else:
